@@ -20,15 +20,23 @@ var raceSurrounds = [][2]string{{"", ""}, {"some output\n", ""}, {"", "exit stat
 	{"==================\n", "==================\n"}, {"x\n==================\nWARNING: DATA RACE\n", "\n"}}
 
 func checkRaceParse(rc *gen.Race, foreignAt int, before, after, key string) *h.Viol {
+	if v := checkRaceParseOpts(rc, foreignAt, before, after, key, plainOpts(), ""); v != nil {
+		return v
+	}
+	// the same report with every later stage on, as the command runs it
+	return checkRaceParseOpts(rc, foreignAt, before, after, key, DefaultOpts(), ":all-stages-on")
+}
+
+func checkRaceParseOpts(rc *gen.Race, foreignAt int, before, after, key string, opts *Opts, tag string) *h.Viol {
 	body := rc.Bytes()
 	if rc.CRLF {
 		before = strings.ReplaceAll(before, "\n", "\r\n")
 		after = strings.ReplaceAll(after, "\n", "\r\n")
 	}
 	in := append(append([]byte(before), body...), after...)
-	res := scanOnce(bytes.NewReader(in), plainOpts())
+	res := scanOnce(bytes.NewReader(in), opts)
 	mk := func(cat, msg string) *h.Viol {
-		v := &h.Viol{Fingerprint: "C08/" + cat, Summary: msg, Key: key, Kind: "race"}
+		v := &h.Viol{Fingerprint: "C08/" + cat + tag, Summary: msg, Key: key, Kind: "race"}
 		v.SetInput(in)
 		return v
 	}
